@@ -1,17 +1,26 @@
 #!/usr/bin/env python3
 """For every repaired defect (known_findings.json, status fixed) undo the repair in /repo's working tree (git apply -R of the fix commit), run the
 owning check at the quick tier and record whether it reports a violation; the working tree is restored after every run.  A reverted repair is a
-realistic breaking change with a known answer.  Writes seeded/reverted_fixes.json.  usage: tools/revfix_matrix.py [property ...]"""
+realistic breaking change with a known answer.  Writes seeded/reverted_fixes.json.  usage: tools/revfix_matrix.py [--tier thorough] [--only <commit>] [property ...]
+(with --tier thorough or --only the result is printed only, seeded/reverted_fixes.json keeps the quick-tier matrix)"""
 import json, os, re, subprocess, sys, time
 os.chdir("/verif")
 KF = json.load(open("known_findings.json"))["findings"]
-want = set(sys.argv[1:])
+argv = sys.argv[1:]
+TIER, ONLY = "quick", None
+while argv and argv[0].startswith("--"):
+    if argv[0] == "--tier":
+        TIER = argv[1]
+    elif argv[0] == "--only":
+        ONLY = argv[1]
+    argv = argv[2:]
+want = set(argv)
 rows = []
 if subprocess.run(["git", "-C", "/repo", "diff", "--quiet"]).returncode != 0:
     sys.exit("/repo working tree is dirty")
 seen = set()
 for e in KF:
-    if e.get("status") != "fixed" or (want and e["property"] not in want):
+    if e.get("status") != "fixed" or (want and e["property"] not in want) or (ONLY and not e["commit"].startswith(ONLY)):
         continue
     key = (e["property"], e["commit"])
     if key in seen:
@@ -26,7 +35,7 @@ for e in KF:
     subprocess.run(["git", "-C", "/repo", "apply", "-R", "-"], input=diff, check=True)
     t = time.time()
     try:
-        r = subprocess.run(["./run", e["property"], "--tier", "quick"], stdout=subprocess.PIPE, stderr=subprocess.STDOUT, text=True, timeout=3600)
+        r = subprocess.run(["./run", e["property"], "--tier", TIER], stdout=subprocess.PIPE, stderr=subprocess.STDOUT, text=True, timeout=3600 if TIER == "quick" else 6 * 3600)
         out, rc = r.stdout, r.returncode
     except subprocess.TimeoutExpired:
         out, rc = "", -1
@@ -35,6 +44,8 @@ for e in KF:
     fps = sorted(set(re.findall(r"fingerprint=(\S+)", out)))
     row.update(result="detected" if rc == 1 and "VIOLATION property=%s" % e["property"] in out else "missed (exit %d)" % rc, fingerprints=fps[:6], seconds=round(time.time() - t))
     rows.append(row); print(row, flush=True)
+if TIER != "quick" or ONLY:
+    sys.exit(0)
 old = []
 if want and os.path.exists("seeded/reverted_fixes.json"):
     old = [r for r in json.load(open("seeded/reverted_fixes.json"))["rows"] if r["property"] not in want]
